@@ -481,3 +481,7 @@ def rfind_in(ch, *pieces):
             expected = off + i
         off += len(p)
     return "".join(pieces).rfind(ch) == expected
+
+
+def char_of_slice(s, lo, n, j):
+    return len(s) < lo + n or s[lo:lo + n][j] == s[lo + j]
